@@ -259,7 +259,11 @@ func forEachLine(path string, shard, nshards int, fn func(i int, data []byte) er
 func pathsOf(p Proj) []M {
 	out := []M{}
 	for _, r := range p.Runs {
-		out = append(out, M{"flow": r.Flow, "status": r.Status, "path": r.Path})
+		res := r.Res
+		if res == nil {
+			res = []int{}
+		}
+		out = append(out, M{"flow": r.Flow, "status": r.Status, "path": r.Path, "res": res, "lastact": r.LastAct})
 	}
 	return out
 }
